@@ -160,7 +160,7 @@ CLAIMED = {
         technique="Coq proof (id_handler case lemmas, counter arithmetic, key-uniqueness invariant by induction over imports) + differential correspondence",
         design="4 (C04)"),
     "C05": dict(
-        text="Coq theorems (Properties/C05.v, 11 statements, closed under the global context) about the model of the "
+        text="Coq theorems (Properties/C05.v, 13 statements, closed under the global context) about the model of the "
              "IntegrityError dispatch and _do_merge, for an arbitrary database state, newcomer, id_spec and force_merge_fields: "
              "'error' aborts; 'warning' leaves features, relations and duplicates untouched; 'replace' puts the newcomer at the "
              "old row's position, keeps every other row, drops the old level-1 parent links and the level-2 rows derived from them "
@@ -169,7 +169,9 @@ CLAIMED = {
              "intact; 'merge' either appends under a fresh key recorded in duplicates, or updates exactly one candidate in "
              "place whose attribute values per key are exactly the duplicate-free union of the newcomer's and the candidates' "
              "values, with exempt columns the comma-joined sorted set; the newcomer's Parent links always go to the key it was "
-             "stored under. Tied to create.py by exhaustive arrival sequences of length <= 3 (thorough: 4) over a 6-feature "
+             "stored under; and as an invariant of every step under every strategy from any stored state the level-1 relation "
+             "rows are exactly the Parent values of the stored rows under their keys (C05_parent_links_exact: no Parent link lost "
+             "or invented; level 2 is C02_history_closed). Tied to create.py by exhaustive arrival sequences of length <= 3 (thorough: 4) over a 6-feature "
              "alphabet x 5 strategies plus 1.5k random sequences x force_merge_fields subsets, a share of them split into a "
              "create_db batch and an update() batch, plus three-level chains whose members arrive again through update(), "
              "comparing features (values as sets for merge), relations, duplicates and counters inside Coq - and, independently "
